@@ -71,9 +71,10 @@ QH_Cfgs == {HybU(<<2, 2, 2, 2>>, RHyb, 4, 8192, 1, FALSE), HybU(<<1, 2, 1, 4>>, 
             HybU(<<2, 1, 2, 1>>, RHyb, 4, 8192, 0, TRUE)}
 QH_On  == {"zero", "half", "pubm", "pub", "pubp", "regen", "regenp", "dyn"}
 QH_Off == {"zero", "regen"}
-\* ---- F-C01-1 corner: battery at its minimum SOC
-MS_Cfgs == {BelU(2, 2, 2, 0)}
-MS_Cls  == {"zero", "pub", "regen", "dyn"}
+\* ---- window edges: battery at its minimum SOC (F-C01-1 corner) and at its maximum SOC (charge limit must be 0 there)
+MS_Cfgs == {BelU(2, 2, 2, 0), BelU(1, 1, 2, 0)}
+MS_Cls  == {"zero", "pub", "regen", "regenp", "dyn"}
+SocEdges == {2, 14}
 \* ---- thorough
 \* depth 3, every efficiency combination and every binding variant, hist hidden by VIEW
 TC_Cfgs == {ConvU(kf, kg, ke, 4, 2, 0) : kf \in K, kg \in K, ke \in K} \cup {ConvU(2, 2, 2, lag, 0, 8) : lag \in {2, 16}}
